@@ -292,6 +292,33 @@ func tandemBudgetText(r *rand.Rand) []byte {
 	return out
 }
 
+// tandemChainText: k copies of an increasing chain of distinct B* substrings
+// (uses up the rank-sort budget), then k2 copies of a tandem repeat P^reps
+// followed by a second chain: a tandem-repeat group with more than
+// trSizeThreshold members whose non-repeating members are sorted when the
+// budget is gone (trIntroSort marks the group partial, trPartialCopy).
+func tandemChainText(r *rand.Rand) []byte {
+	var out []byte
+	j, k := 15+r.Intn(11), 3+r.Intn(6)
+	j2, k2, reps := 3+r.Intn(13), 7+r.Intn(6), 4+r.Intn(3)
+	for i := 0; i < k; i++ {
+		for x := 0; x < j; x++ {
+			out = append(out, 1, byte(2+x))
+		}
+		out = append(out, byte(255-i))
+	}
+	for i := 0; i < k2; i++ {
+		for x := 0; x < reps; x++ {
+			out = append(out, 100, 101)
+		}
+		for x := 0; x < j2; x++ {
+			out = append(out, 120, byte(121+x))
+		}
+		out = append(out, byte(255-i))
+	}
+	return out
+}
+
 func genSuffix(seed int64, n int, tier string) []Script {
 	r := rand.New(rand.NewSource(seed))
 	maxN := 1500
@@ -320,7 +347,11 @@ func genSuffix(seed int64, n int, tier string) []Script {
 	for i := 0; i < n; i += 10 {
 		var ops []map[string]any
 		for j := 0; j < 10; j++ {
-			ops = append(ops, map[string]any{"op": "suffix", "t": B2(tandemBudgetText(r)), "class": "tandembudget"})
+			if j%2 == 0 {
+				ops = append(ops, map[string]any{"op": "suffix", "t": B2(tandemBudgetText(r)), "class": "tandembudget"})
+			} else {
+				ops = append(ops, map[string]any{"op": "suffix", "t": B2(tandemChainText(r)), "class": "tandemchain"})
+			}
 		}
 		out = append(out, Script{Tid: "suffix-tb-" + itoa(seed) + "-" + itoa(int64(i)), Comp: "suffix",
 			Cfg: map[string]any{}, Ops: ops, Tags: []string{"go", "sort", "tandembudget"}})
